@@ -470,7 +470,17 @@ def r8_the_warning_names_its_numbers(ctx):
         ctx.bad("limit-warning|anchor", fn.where(), "the resource-limit warning's format call was not found in emit_analysis_warnings")
 
 
-RULES = [("C18-R1", r1_skip_path), ("C18-R2", r2_every_cap_compared), ("C18-R2b", r2b_derived_bounds_shape), ("C18-R3", r3_no_plan_runs_everything), ("C18-R3b", r3b_facts_independent_of_plan), ("C18-R4", r4_caps_only_gate_the_analyses), ("C18-R5", r5_fallback_marks_every_local), ("C18-R6", r6_budget_charges_growth_only), ("C18-R7", r7_bit_sets_are_sized_in_words), ("C18-R8", r8_the_warning_names_its_numbers)]
+def r9_what_is_pruned_below_a_limit_would_not_have_mattered(ctx):
+    """Above a limit nothing is pruned; below it the plan is in force.  The two runs print the same only if the plan removes
+    nothing observable - which is C03.  The clauses of C03 that seeded changes have shown to make exactly this difference
+    visible across a limit are run here too: C03-R1 (stmt_effective_class folds every direct callee's *transitive* class) and
+    C03-R4 (the liveness transfer: kills before gens, own reads before own writes, transitive capture sets in both passes)."""
+    from .c03 import r1_plan_only_from_pure, r4_dataflow_shape
+    r1_plan_only_from_pure(ctx)
+    r4_dataflow_shape(ctx)
+
+
+RULES = [("C18-R1", r1_skip_path), ("C18-R2", r2_every_cap_compared), ("C18-R2b", r2b_derived_bounds_shape), ("C18-R3", r3_no_plan_runs_everything), ("C18-R3b", r3b_facts_independent_of_plan), ("C18-R4", r4_caps_only_gate_the_analyses), ("C18-R5", r5_fallback_marks_every_local), ("C18-R6", r6_budget_charges_growth_only), ("C18-R7", r7_bit_sets_are_sized_in_words), ("C18-R8", r8_the_warning_names_its_numbers), ("C18-R9", r9_what_is_pruned_below_a_limit_would_not_have_mattered)]
 
 EXPLANATION = (
     "R1: in Resolver::emit_analysis_warnings the preflight count and first_exceeded_limit(.., DEFAULT_CAPS) dominate every "
@@ -492,4 +502,7 @@ TRUSTED = ["rustc nightly MIR", "nsx exporter", "nsverif region/edge-dominance c
 NONTRIVIAL = "one obligation per cap field and per clause of the skip path; distinct = distinct clause/cap"
 EXPLANATION += (
     " R5 also covers the unused-variable report's fallback (it marks the locals of the calling function, not of the callee). R8: the operands of the resource-limit warning follow the words of its template (observed, then limit)."
+)
+EXPLANATION += (
+    " Round 6: R2b also fixes the unit of the liveness bound's local factor (locals, not 64-bit words); R9 shares C03-R1 and C03-R4 (what is pruned below a limit would not have mattered)."
 )
